@@ -47,7 +47,8 @@ def layouts(ds, tier, k):
                     k += 1
                     out.append(dict(where=where, wide=wide, header=header, omit_single=omit,
                                     value_name=["value", "amount", "Wert (kt)"][k % 3],
-                                    row_perm=(k if k % 2 else None), col_perm=(k if k % 3 == 0 else None), csv=(k % 4 == 0)))
+                                    row_perm=(k if k % 2 else None), col_perm=(k if k % 3 == 0 else None), csv=(k % 4 == 0),
+                                    row_labels=([None, "from1", "gaps"][(k // 2) % 3] if where == "columns" and k % 4 else None)))
     if tier == "quick":
         out = [l for i, l in enumerate(out) if l["header"] != "mixed" or i % 3 == 0]
     return out
@@ -75,6 +76,19 @@ def generate(tier, rng):
                         if any(all(Fraction(v) == 0 for kk, v in zip(keys, vals) if kk[w] == it) for it in ds[w]["items"]):
                             continue
                     cases.append(dict(stream="exact", kind="direct", dims=ds, values=vals, index=index, dim_to_columns=d2c, sparse=sparse))
+        # the same array in a unit 2^70 times larger (entries of the order 1e-21): a sparse table lists exactly the NON-ZERO entries,
+        # however small they are
+        tiny = [str(Fraction(v) / 2 ** 70) for v in vals]
+        for index in (True, False):
+            cases.append(dict(stream="exact", coq=False, kind="export", dims=ds, values=tiny, index=index, dim_to_columns=None, sparse=True))
+        # a sparse table in which one item of the first dimension does not occur at all (all its entries are zero), read back with
+        # the dimensions given by name and by letter (the column then does not hold the full item set)
+        if len(ds) >= 2 and len(ds[0]["items"]) >= 2:
+            keys_ = dd.all_keys(ds)
+            zs = ["0" if kk[0] == ds[0]["items"][0] else v for kk, v in zip(keys_, [str(Fraction(v) + 1) for v in vals])]
+            for index in (True, False):
+                for letters in (False, True):
+                    cases.append(dict(stream="exact", kind="direct", dims=ds, values=zs, index=index, dim_to_columns=None, sparse=True, letters=letters))
         nz = [str(Fraction(v) + Fraction(1, 2)) for v in vals]   # no zeros: rows are complete
         for lay in layouts(ds, tier, k):
             if lay["csv"] and lay["wide"] is not None and ds[lay["wide"]]["dtype"] is None and isinstance(ds[lay["wide"]]["items"][0], int):
@@ -106,6 +120,15 @@ def generate(tier, rng):
     return cases
 
 
+def _with_letters(df, ds):
+    """the table of to_df with the dimensions' letters in place of their names (columns and index levels)"""
+    m = {d["name"]: d["letter"] for d in ds}
+    df = df.rename(columns=m)
+    if df.index.names and any(n in m for n in df.index.names):
+        df.index = df.index.rename([m.get(n, n) for n in df.index.names])
+    return df
+
+
 def run_impl(case):
     import flodym as fd
     ds = case["dims"]
@@ -119,6 +142,8 @@ def run_impl(case):
             df = a.to_df(index=case["index"], dim_to_columns=case["dim_to_columns"], sparse=case["sparse"])
         except Exception as e:  # noqa
             return dict(kind="err", exc=type(e).__name__, msg=str(e)[:160], stage="to_df")
+        if case.get("letters"):
+            df = _with_letters(df, ds)
         if case["kind"] == "export":
             rows = dd.rows_from_to_df(ds, df, case["index"], case["dim_to_columns"])
             if case["sparse"]:
@@ -192,7 +217,8 @@ def _frame_of(case):
     if case["kind"] == "direct":
         vals = np.array([float(Fraction(v)) for v in case["values"]]).reshape(dims.shape)
         a = fd.FlodymArray(dims=dims, values=vals)
-        return a.to_df(index=case["index"], dim_to_columns=case["dim_to_columns"], sparse=case["sparse"]), case["sparse"]
+        df = a.to_df(index=case["index"], dim_to_columns=case["dim_to_columns"], sparse=case["sparse"])
+        return (_with_letters(df, ds) if case.get("letters") else df), case["sparse"]
     rows = dd.full_rows(ds, [Fraction(v) for v in case["values"]])
     if case.get("relabel"):
         i, j = case["relabel"]
